@@ -277,6 +277,16 @@ def shared_family():
             o = mk(b)
             return [{'a': [o, o]}, {'a': [o], 'b': [o]}]
         fam.append(('shared-coll-' + name, spec4, mk4))
+    # one object of a class whose sweeten REPLACES the node (short form), referenced twice
+    kshort = _K([('v', 'int')], hooks={'sweeten': [('attr_to_scalar', 'v')], 'savorize': [('scalar_to_attr', 'v')],
+                                       'recognize': [('permissive',)]})
+    fam.append(('shared-replacing-sweeten', {'classes': BASE + [kshort], 'root': ('list', ('cls', 'K'))},
+                lambda b: [[k, k] for k in [b.classes['K'](1)]] + [[k, b.classes['K'](2), k] for k in [b.classes['K'](3)]]))
+    fam.append(('shared-replacing-sweeten-dict', {'classes': BASE + [kshort], 'root': ('dict', 'str', ('cls', 'K'))},
+                lambda b: [{'a': k, 'b': k} for k in [b.classes['K'](1)]]))
+    kdash = _K([('a_b', 'int'), ('c_d', 'str', 'x')], hooks={'sweeten': [('unders_to_dashes',)], 'savorize': [('dashes_to_unders',)]})
+    fam.append(('shared-sweetened-mapping', {'classes': BASE + [kdash], 'root': ('list', ('cls', 'K'))},
+                lambda b: [[k, k] for k in [b.classes['K'](1, 'y')]]))
     return fam
 
 
